@@ -1,6 +1,6 @@
 // C14 - Dubins and Reeds-Shepp distances are the lengths of real, optimal curves.
 //
-//   curves record  <tables.ndjson> <out.ndjson> <quick|thorough>   find pose pairs for every branch case of the
+//   curves record  <tables.ndjson> <out.ndjson> <quick|thorough> [part]   find pose pairs for every branch case of the
 //                                                                   model, straddle every decision node, special
 //                                                                   families; record observations of the real spaces
 //   curves measure <tables.ndjson> <n> [regime]                     error distributions over n random pairs (no trace)
@@ -244,7 +244,8 @@ static int record(int argc, char **argv)
     if (argc < 5)
         return 2;
     const bool thorough = std::string(argv[4]) == "thorough";
-    Ctx cx(argv[2], vt::envSeed());
+    const int part = argc > 5 ? atoi(argv[5]) : 0;   // several recorders run side by side, each with its own stream
+    Ctx cx(argv[2], vt::envSeed() * 1000003ULL + 7919ULL * part + 1);
     cx.trace.reset(new vt::Trace(argv[3]));
     const int K = thorough ? 12 : 2;                  // interior pairs per branch case
     const long poolBudget = thorough ? 40000000 : 3000000;
